@@ -71,7 +71,7 @@ using namespace vh;
 BASE_CFLAGS = ['-std=c++17', '-fno-vectorize', '-fno-slp-vectorize', '-ffp-contract=off', '-fno-exceptions',
                '-mllvm', '-inline-threshold=100000', '-w']
 UBSAN_FLAGS = ['-fsanitize=undefined,float-cast-overflow,float-divide-by-zero,integer-divide-by-zero',
-               '-fno-sanitize=function,vptr,float-divide-by-zero,alignment,pointer-overflow', '-fsanitize-trap=all']
+               '-fno-sanitize=function,vptr,float-divide-by-zero,pointer-overflow', '-fsanitize-trap=all']
 
 class Fn:
     def __init__(s, name, ins, outs, body): s.name = name; s.ins = ins; s.outs = outs; s.body = body
@@ -201,11 +201,13 @@ def sym_call(unit, fname, ins=None, mode='fp', unwind=16, opt='-O1', ubsan=False
     else:
         ex.mod = mod
     ex.track_poison = track_poison
+    if ubsan: ex.allow_noreturn = True
+    if ubsan: ex.check_align = True          # what -fsanitize=alignment reports: accesses whose IR alignment exceeds what the object guarantees
     mem = Mem(); ptrs = []
     for (c, n), terms in zip(fn.ins, ins):
         k, w, _ = CT[c]; sz = w // 8
         assert len(terms) == n, (fname, c, n, len(terms))
-        oid = ex.newobj(mem, n * sz, 'in')
+        oid = ex.newobj(mem, n * sz, 'in'); ex.objalign[oid] = sz           # wrapper arrays are only naturally aligned
         for i, t in enumerate(terms):
             if isinstance(t, FV): t = t.bits
             if isinstance(t, RV): t = t.r
@@ -216,7 +218,7 @@ def sym_call(unit, fname, ins=None, mode='fp', unwind=16, opt='-O1', ubsan=False
         ptrs.append(Ptr(oid, 0))
     oobjs = []
     for (c, n) in fn.outs:
-        k, w, _ = CT[c]; oid = ex.newobj(mem, n * (w // 8), 'out'); oobjs.append(oid); ptrs.append(Ptr(oid, 0))
+        k, w, _ = CT[c]; oid = ex.newobj(mem, n * (w // 8), 'out'); ex.objalign[oid] = w // 8; oobjs.append(oid); ptrs.append(Ptr(oid, 0))
     ex.cur_cond = z3.BoolVal(True)
     _, mem2 = ex.run('@w_' + fname, ptrs, mem)
     outs = []
@@ -226,7 +228,9 @@ def sym_call(unit, fname, ins=None, mode='fp', unwind=16, opt='-O1', ubsan=False
         vals = []
         for i in range(n):
             cells = mem2.read(oid, i * sz, sz)
-            if any(x is None for x in cells): raise Unsupported('output %s[%d] of %s not written' % (oid, i, fname))
+            if any(x is None for x in cells):
+                if ubsan and ex.obligations: vals.append(z3.BitVec('unwritten!%s!%d' % (oid, i), w) if k != 'f' else FV(w, bits=z3.BitVec('unwritten!%s!%d' % (oid, i), w))); continue     # trap-only paths: only the obligations matter
+                raise Unsupported('output %s[%d] of %s not written' % (oid, i, fname))
             ex.cur_cond = z3.BoolVal(True)
             vals.append(ex.load(mem2, Ptr(oid, i * sz), ty))
         outs.append(vals)
@@ -856,7 +860,7 @@ def ub_replay(unit, fname, vals, info, kind):
     main.append('  std::puts("completed"); return 0; }')
     d = scratch(); base = os.path.join(d, 'ubr_%d_%d' % (os.getpid(), random.getrandbits(30)))
     with open(base + '.cpp', 'w') as f: f.write(src + '\n' + '\n'.join(main) + '\n')
-    cmd = ['clang++-14', '-std=c++17', '-O0', '-w', '-ffp-contract=off', '-fsanitize=undefined,float-cast-overflow,integer-divide-by-zero', '-fno-sanitize=function,vptr,alignment',
+    cmd = ['clang++-14', '-std=c++17', '-O0', '-w', '-ffp-contract=off', '-fsanitize=undefined,float-cast-overflow,integer-divide-by-zero', '-fno-sanitize=function,vptr',
            '-fno-sanitize-recover=all'] + unit.cflags + ['-I', REPO, base + '.cpp', '-o', base + '.exe']
     p = subprocess.run(cmd, capture_output=True, text=True)
     if p.returncode != 0:
@@ -907,6 +911,7 @@ def real_replay(unit, fname, vals, spec_fn, pre_fn, oname, pid):
     g = dict(goals)[spec_fn[1]]
     tol = 2e-3 if any(ct_bits(c) == 32 and ct_kind(c) == 'f' for c, n in fn.ins + fn.outs) else 1e-6
     def num(t):
+        if isinstance(t, (int, float, Fraction)): return float(t)        # goals written with bare Python numbers, e.g. REq(x, 0)
         return float(z3val_to_fraction(t))
     try:
         if isinstance(g, RGoal):
